@@ -100,6 +100,25 @@ func (c *FnCtx) atom(prefix, term string) string {
 	return n
 }
 
+// atomSort is atom for a term of any sort (array-valued ghost fields: the
+// solver simplifies nested select/store terms differently inside and outside
+// quantifiers, which defeats E-matching unless the term has a name).
+func (c *FnCtx) atomSort(prefix, sort, term string) string {
+	if isSimpleName(term) {
+		return term
+	}
+	if c.atoms == nil {
+		c.atoms = map[string]string{}
+	}
+	if n, ok := c.atoms[sort+"|"+term]; ok {
+		return n
+	}
+	n := c.declare(prefix, sort)
+	c.assumeRaw(eq(n, term))
+	c.atoms[sort+"|"+term] = n
+	return n
+}
+
 func isSimpleName(s string) bool {
 	for _, r := range s {
 		if r == '(' || r == ' ' {
